@@ -222,6 +222,12 @@ def tile_query(prog: Program) -> List[Instance]:
                         "a candidate index is yielded iff the query is not disjoint from the extent of the tile at that index" if ok else f"tile filter broken ({detail})", f.where()))
     # candidates come from the bounding box of the query polygon that was reconciled
     rb = [n for n in walk_own(f.node) if isinstance(n, ast.Call) and call_name(n) == "range_from_bbox"]
+    if rb:
+        condq = Conditions(f.body)
+        okE = any(isinstance(e, ast.Attribute) and e.attr == "is_empty" and not p for e, p in conds_at(condq, enclosing_stmt(rb[0])))
+        out.append(Instance("R-EMPTY", f"{f.qual}#empty-query", OK if okE else BAD,
+                            "the tile range is computed only for a non-empty query" if okE else
+                            "the bounds of the query feed range_from_bbox without an is_empty test: an empty geometry has NaN bounds and the query raises instead of yielding nothing", f.where(rb[0])))
     ok = len(rb) == 1 and isinstance(rb[0].args[0], ast.Attribute) and rb[0].args[0].attr == "boundingbox"
     if ok:
         # ... of the polygon *after* it was brought into the grid's CRS
@@ -833,6 +839,12 @@ def gridspec_polygon_filter(prog: Program) -> List[Instance]:
     ys = [n for n in walk_own(f.node) if isinstance(n, (ast.Yield, ast.YieldFrom))]
     if not ys:
         return [Instance("R-GUARDSEQ", f"{f.qual}#yield-under-intersect", UNDET, "no yield found", f.where())]
+    # an empty query has NaN bounds: the candidate enumeration is reached only for non-empty queries
+    for lp in (n for n in walk_own(f.node) if isinstance(n, ast.For) and any(isinstance(c, ast.Call) and call_name(c) == "tiles" for c in ast.walk(n.iter))):
+        okE = any(isinstance(e, ast.Attribute) and e.attr == "is_empty" and not p for e, p in conds_at(cond, lp))
+        out.append(Instance("R-EMPTY", f"{f.qual}#empty-query", OK if okE else BAD,
+                            "candidate tiles are enumerated only for a non-empty query" if okE else
+                            "the bounds of the query feed the candidate enumeration without an is_empty test: an empty polygon has NaN bounds and the index computation raises instead of yielding nothing", f.where(lp)))
     for k, y in enumerate(ys):
         st = enclosing_stmt(y)
         yielded = names_in(y.value) if y.value is not None else set()
@@ -840,8 +852,18 @@ def gridspec_polygon_filter(prog: Program) -> List[Instance]:
         for e, p in conds_at(cond, st):
             if isinstance(e, ast.Call) and call_name(e) in ("disjoint", "intersects") and ((call_name(e) == "disjoint" and not p) or (call_name(e) == "intersects" and p)):
                 ext = [x for a in e.args for x in ast.walk(a) if isinstance(x, ast.Attribute) and x.attr == "extent"]
+                # the extent may sit in a local first: extent = tile_geobox.extent
+                for a in e.args:
+                    if isinstance(a, ast.Name):
+                        for x in walk_own(f.node):
+                            if isinstance(x, ast.Assign) and any(isinstance(t, ast.Name) and t.id == a.id for t in x.targets):
+                                ext += [y for y in ast.walk(x.value) if isinstance(y, ast.Attribute) and y.attr == "extent"]
                 if ext and names_in(ext[0].value) & yielded:
                     ok = True
+        notouch = any(isinstance(e, ast.Call) and call_name(e) == "touches" and not p for e, p in conds_at(cond, st)) or any(isinstance(e, ast.Call) and call_name(e) in ("overlaps", "relate_pattern") and p for e, p in conds_at(cond, st))
+        out.append(Instance("R-GUARDSEQ", f"{f.qual}#yield-excludes-touch:{k}", OK if notouch else BAD,
+                            "edge/corner-only contact is excluded (not touches), like the bounding-box query does with its tolerance" if notouch else
+                            "a tile that only touches the query along an edge or at a corner passes the filter (`not disjoint` / `intersects` are true for boundary contact): the statement excludes edge contacts", f.where(y)))
         out.append(Instance("R-GUARDSEQ", f"{f.qual}#yield-under-intersect:{k}", OK if ok else BAD,
                             "tile yielded only when the query is not disjoint from that tile's extent" if ok else
                             f"`{short(st, 60)}` is reachable without the query having been tested against the extent of the yielded tile: tiles that only touch the query's bounding box are returned", f.where(y)))
